@@ -57,9 +57,7 @@ class Violation(Exception):
 def fresh(c):
     """The reference model the property names: a freshly constructed crystal
     with the same cell, space group and asymmetric unit (no memo, no cif_data)."""
-    return Crystal(
-        _clone(c.unit_cell), _clone(c.space_group), _clone(c.asymmetric_unit), titl=c.titl
-    )
+    return Crystal(*rebuild_state(c), titl=c.titl)
 
 
 def _clone(x, _depth=0):
@@ -89,6 +87,103 @@ def _clone(x, _depth=0):
             new.__dict__[k] = _clone(v, _depth + 1)
         return new
     return copy.deepcopy(x)
+
+
+_TEMPLATE_ATTRS = {}
+
+
+def _constructor_attrs(cls):
+    """Names of the attributes a freshly constructed instance carries (lazily
+    attached caches inside state objects must not travel to the reference)."""
+    if cls not in _TEMPLATE_ATTRS:
+        from chmpy.core.element import Element
+        from chmpy.crystal import AsymmetricUnit, SpaceGroup, UnitCell
+        from chmpy.crystal.symmetry_operation import SymmetryOperation
+
+        try:
+            if cls is UnitCell:
+                t = UnitCell(np.eye(3) * 5.0)
+            elif cls is SpaceGroup:
+                t = SpaceGroup(1)
+            elif cls is AsymmetricUnit:
+                t = AsymmetricUnit([Element[1]], np.zeros((1, 3)))
+            elif cls is SymmetryOperation:
+                t = SymmetryOperation.from_integer_code(16484)
+            else:
+                t = None
+            _TEMPLATE_ATTRS[cls] = None if t is None else set(vars(t))
+        except Exception:  # noqa: BLE001
+            _TEMPLATE_ATTRS[cls] = None
+    return _TEMPLATE_ATTRS[cls]
+
+
+def _value_clone(x, _depth=0):
+    """Like _clone, but an instance of a state class keeps only the attributes
+    its constructor sets."""
+    cls = type(x)
+    if cls.__module__.startswith("chmpy") and hasattr(x, "__dict__") and _depth < 12:
+        keep = _constructor_attrs(cls)
+        new = cls.__new__(cls)
+        for k, v in x.__dict__.items():
+            if keep is None or k in keep:
+                new.__dict__[k] = _value_clone(v, _depth + 1)
+        return new
+    if isinstance(x, list):
+        return [_value_clone(v, _depth + 1) for v in x]
+    return _clone(x, _depth)
+
+
+def rebuild_state(h, stats=None):
+    """(unit cell, space group, asymmetric unit) for the reference crystal:
+    the same *values* as the handle's, in objects that come out of the
+    library's own constructors wherever that is possible bit for bit, and that
+    never carry caches lazily attached to the handle's state objects."""
+    from chmpy.crystal import AsymmetricUnit, SpaceGroup, UnitCell
+
+    uc0, sg0, au0 = h.unit_cell, h.space_group, h.asymmetric_unit
+    # unit cell: through the constructor, then the exact numbers of the handle
+    try:
+        uc = UnitCell(np.array(uc0.direct, dtype=np.float64, copy=True))
+        for k in ("direct", "inverse", "lengths", "angles"):
+            setattr(uc, k, _clone(getattr(uc0, k)))
+        uc._set_cell_type()
+        if set(vars(uc)) != set(k for k in vars(uc0) if k in vars(uc)) or any(
+            k not in vars(uc) for k in vars(uc0) if not k.startswith("_")
+        ):
+            raise ValueError("attribute sets differ")
+    except Exception:  # noqa: BLE001
+        uc = _value_clone(uc0)
+        if stats is not None:
+            stats["reference_unit_cell_by_clone"] += 1
+    # space group: SpaceGroup(number, choice) when that is the same group
+    sg = None
+    try:
+        cand = SpaceGroup(sg0.international_tables_number, choice=sg0.choice) if sg0.choice else SpaceGroup(sg0.international_tables_number)
+        same_ops = [int(s.integer_code) for s in cand.symmetry_operations] == [int(s.integer_code) for s in sg0.symmetry_operations]
+        same_meta = all(getattr(cand, k, None) == getattr(sg0, k, None) for k in ("symbol", "full_symbol", "choice", "centering", "centrosymmetric"))
+        if same_ops and same_meta:
+            sg = cand
+    except Exception:  # noqa: BLE001
+        sg = None
+    if sg is None:
+        sg = _value_clone(sg0)
+        if stats is not None:
+            stats["reference_space_group_by_clone"] += 1
+    # asymmetric unit: through the constructor
+    try:
+        au = AsymmetricUnit(
+            list(au0.elements),
+            np.array(au0.positions, copy=True),
+            labels=np.array(au0.labels, copy=True),
+            **{k: _clone(v) for k, v in au0.properties.items()},
+        )
+        if not np.array_equal(np.asarray(au.labels), np.asarray(au0.labels)) or set(vars(au)) - set(vars(au0)):
+            raise ValueError("constructor changed the data")
+    except Exception:  # noqa: BLE001
+        au = _value_clone(au0)
+        if stats is not None:
+            stats["reference_asymmetric_unit_by_clone"] += 1
+    return uc, sg, au
 
 
 def _cif_digest(c):
@@ -269,7 +364,7 @@ class Sim:
         # the reference is built from the state *before* the call
         # (the name is the one the handle had when it entered the world: no
         # operation of the API renames a crystal)
-        pre = (_clone(h.unit_cell), _clone(h.space_group), _clone(h.asymmetric_unit), self.titl0[hi])
+        pre = rebuild_state(h, self.stats) + (self.titl0[hi],)
         if inject:
             INJECTOR.arm(inject["target"], inject["nth"], inject["exc"])
         try:
@@ -560,7 +655,7 @@ def _attribute_child(schedule, vj):
     h = sim.world[v.handle % len(sim.world)]
     names = carriers_present(h)
     hi = v.handle % len(sim.world)
-    ref = Crystal(_clone(h.unit_cell), _clone(h.space_group), _clone(h.asymmetric_unit), titl=sim.titl0[hi])
+    ref = Crystal(*rebuild_state(h), titl=sim.titl0[hi])
     b = outcome(fn, ref, sim.A, {"dir": "/simfs/ref"})
     for size in range(1, len(names) + 1):
         for subset in itertools.combinations(names, size):
